@@ -1267,8 +1267,12 @@ func (bc *Blockchain) resetStateInternal(height uint32, stage stateChangeStage) 
 		p = time.Now()
 		fallthrough
 	case transfersReset:
-		// there's nothing to do after that, so just continue with common operations
-		// and remove state reset stage in the end.
+		// State root module is set up by ResetState at the previous stage. If state reset
+		// is resumed from this stage after restart, then it is not yet initialized.
+		err = bc.stateRoot.Init(height)
+		if err != nil {
+			return fmt.Errorf("failed to initialize state root module at height %d: %w", height, err)
+		}
 	default:
 		return fmt.Errorf("unknown state reset stage: %d", stage)
 	}
